@@ -172,6 +172,17 @@ def layer(self, start=None, end=None, value=None, frame=None):
         return self
     self._clear_cache()
     start, end, value = _preprocess_layer_args(frame, start, end, value)
+    if self._data is not None and self._has_na():
+        # undefined regions are encoded inside the step changes and do not survive
+        # accumulating further changes, so layer onto a blank function and add that
+        import staircase as sc
+
+        result = self + sc.Stairs(closed=self.closed).layer(start, end, value)
+        self.initial_value = result.initial_value
+        self._data = result._data
+        self._valid_deltas = result._valid_deltas
+        self._valid_values = result._valid_values
+        return self
     if not any(list(map(is_list_like, (start, end, value)))):
         return _layer_scalar(self, start, end, value)
     value = np.array(value)
